@@ -43,7 +43,7 @@ func ruleF1(c *Ctx) {
 			if g == nil {
 				continue
 			}
-			if rn := recvNamed(g); rn == nil || rn.Obj().Name() != "pluginType" || g.Signature.Results().Len() == 0 || strings.HasPrefix(g.Name(), "is") {
+			if rn := recvNamed(g); rn == nil || tname(rn.Obj()) != "pluginType" || g.Signature.Results().Len() == 0 || strings.HasPrefix(g.Name(), "is") {
 				continue
 			}
 			key := f.Name() + "/" + g.Name()
@@ -469,7 +469,7 @@ func ruleF6(c *Ctx) {
 		for _, cd := range controls(fs.Store.Block()) {
 			cd = normCond(cd)
 			if call, ok := cd.V.(*ssa.Call); ok && cd.Pol {
-				if g := m.callee(call.Common()); g != nil && g.Name() == "isWasm" {
+				if g := m.callee(call.Common()); g != nil && g == m.method(pkgAdapt, "pluginType", "isWasm") {
 					wasm = true
 				}
 			}
